@@ -1,9 +1,42 @@
 # C04 -- selecting / replicating / joining / generating views (index-function level)
 META = dict(
     level='proof',
-    level_text='TODO',
-    level_note='TODO',
-    trusted_base=[], assumptions=[], not_covered=[],
+    level_text='For tile, repeat (scalar repeats), roll, pad, concatenate, take, resize, expand (shape), diagonal, tril, triu, eye and tri the '
+               'shape function and the index function the view calls (instantiated for utl::static_vector<size_t,8>, rank 0..8 symbolic, '
+               'int axis / shift / offset / k) are proved by CBMC code contracts to return NumPy\'s resp. the documented shape and, for every '
+               'destination index inside that shape, the designated source index, which lies inside the source shape (or Nothing exactly '
+               'for fill positions). Every code loop is closed by a loop contract; products, quotients and remainders are uninterpreted '
+               'with sound axioms where a value equality needs them; the roll formula is tied to the mathematical modulo by a Lean lemma. '
+               'Ten genuine defects (roll shift magnitude, negative axes in concatenate/repeat/take, negative take entries, resize float '
+               'round trip, diagonal with negative / excessive offset) are recorded as region findings and excluded; the contract holds on the complement.',
+    level_note='Index-function level: the view glue view(idx) = src(X(idx)) and view.shape() = shape_X(...) is read off the view headers and trusted. '
+               'Trusted: clang AST, cxx2c rendering, CBMC/dfcc, Lean kernel, UF axioms for * / % (unsigned long) and for int % (spec/c04.h). '
+               'roll.uf needs about 170 s on the unfixed tree (6 s once the shift is reduced).',
+    trusted_base=[
+        'clang 14 front end (AST of the instantiated templates)', 'engine/cxx2c.py (C++ AST -> C rendering)',
+        'cbmc 6.11.0 / goto-instrument --dfcc (contract instrumentation, SAT back end)', 'Lean 4.33 kernel (lemmas/c04_roll_mod.lean, core library only)',
+        'C models of std::optional / std::tuple / std::array (generated struct {has,val} / {e0,..} / {_M_elems})',
+        'view glue read from the view headers: which index function a view calls with which arguments (inst/c04.cpp comments)',
+        'C++ references are valid and parameters do not alias outputs (harness passes distinct objects)',
+    ],
+    assumptions=[
+        'UF mode: unsigned long * / % are uninterpreted functions constrained by the axioms in models/prelude.h; int % is uninterpreted with the axioms in spec/c04.h (MOD_i); each axiom is a theorem of machine arithmetic',
+        'arithmetic facts assumed as precondition instances (theorems, evaluated natively on every replay): r != 0 && a < s*r ==> a/r < s (repeat); i < d && s >= 1 && s*i fits ==> s*i/d < s (resize)',
+        'ghost arrays (EST, ETI, PIN, PEX, CEQ, CSH, CBX, CCP, RSH, RPX, TSH, TKX, RZP, RZQ, XSH, DSH, DIX) are functional definitions assumed in the precondition',
+        'destination indices lie inside the view shape, arguments are those the shape function accepts (valid axis -ndim <= axis < ndim, valid take entries -n <= e < n, compatible concatenate shapes)',
+        'magnitudes: extents / pad widths <= 2^61 (pad, concatenate, take); rolled extent <= 2^30 and diagonal / tril / triu / eye / tri extents and |k| <= 2^30 (nm_index_t = int arithmetic of the code); resize extents < 2^32 (src*idx fits 64 bits); extent products of tile / repeat / expand are machine products (no overflow claim)',
+        'out-of-range integer conversions wrap (implementation-defined in C++17, modular on gcc/clang/msvc, defined in C++20): conversion check disabled in nmtools::at, normalize_axis, index::tile, shape_tile lambda, normalize_roll_index (contracts/c04.spec @modular_conversions)',
+        'configuration: -DNDEBUG, STL enabled, index arrays of kind utl::static_vector<size_t,8> (take index list: static_vector<int,8>)',
+    ],
+    not_covered=[
+        'view-only routines without an index function: where, full/zeros/ones(_like), element values of arange/linspace (start + i*step in floating point)',
+        'stack/hstack/vstack/dstack/column_stack as compositions of expand_dims/concatenate/reshape (hstack_axis, shape_vstack helpers not under contract)',
+        'index::expand source-index function (returns nmtools_either = std::variant: no C model); only shape_expand is covered',
+        'split (view::detail::split_args returns nested std::vector for run-time shapes), compress (nonzero/where), sliding_window, diagflat, arange_shape, linspace_shape (std::vector result)',
+        'repeat with per-element repeats or axis=None, roll with several axes / axis=None index variant, concatenate with axis=None, take with axis=None',
+        'compile-time-constant, fixed-size (std::array) and dynamic (std::vector) index containers; ranks above 8',
+        'extents beyond the magnitude assumptions (int index arithmetic of roll / diagonal / tri*, float-free resize products >= 2^64)',
+    ],
 )
 HN = {'hybrid_ndarray.*resize': 3, 'detail_init_': 3}   # constant-trip (rank-1) helper loops of hybrid_ndarray<T,8,1>
 UNITS = [
